@@ -7,4 +7,4 @@ for d in seeded/*/; do
   tools/run_seed.sh $s $p >> /tmp/seed_results.txt 2>&1
 done
 git -C /repo status --short >> /tmp/seed_results.txt
-echo ALLDONE >> /tmp/seed_results.txt
+echo ALLDONE >> /tmp/seed_results.txt; grep "^C" /tmp/seed_results.txt > /verif/seeded/last_sweep.txt
